@@ -46,7 +46,7 @@ func verifC06(native bool, nEntries int, integer bool) {
 			return err
 		}
 		// an application DBI that was created with flags but holds no entry (yet)
-		if _, err := txn.OpenDBI("empty-ints", lmdb.Create|0x08); err != nil {
+		if _, err := txn.OpenDBI("_ints", lmdb.Create|0x08); err != nil {
 			return err
 		}
 		if err := txn.Put(priv, []byte("x"), vStoredBytes(5, 1, 0, 0, nil, []byte("y")), 0); err != nil {
@@ -158,7 +158,7 @@ func verifC06(native bool, nEntries int, integer bool) {
 		if x.Name() == "d" {
 			d = x
 		} else {
-			zz.Assert(x.Name() == "empty-ints", "C06/dbis/names")
+			zz.Assert(x.Name() == "_ints", "C06/dbis/names")
 			zz.Assert(x.Flags() == 0x08, "C06/dbi/empty-dbi-keeps-its-flags")
 			ee, eerr := vEntries(x)
 			zz.Assert(eerr == nil && len(ee) == 0, "C06/dbi/empty-dbi-has-no-entries")
